@@ -3,6 +3,7 @@ package midix
 import (
 	"fmt"
 	"log/slog"
+	"math"
 
 	"github.com/berquerant/crd/errorx"
 	"github.com/berquerant/crd/logx"
@@ -143,11 +144,31 @@ func NewTrack() *Track {
 }
 
 func (t Track) Len() int                       { return len(t.ops) }
-func (t *Track) AddTickDelta(tickDelta uint32) { t.tickDelta += tickDelta }
+func (t *Track) AddTickDelta(tickDelta uint32) { t.tickDelta = addTicks(t.tickDelta, tickDelta) }
 func (t *Track) Add(op *TrackOp) {
-	op.TickDelta += t.tickDelta
+	op.TickDelta = addTicks(op.TickDelta, t.tickDelta)
 	t.ops = append(t.ops, op)
 	t.tickDelta = 0
+}
+
+// maxTickDelta is the largest delta time a MIDI file can encode (4 bytes variable length quantity).
+const maxTickDelta = 0x0FFFFFFF
+
+// addTicks adds with saturation so that an overlong delta never wraps around into a short one.
+func addTicks(a, b uint32) uint32 {
+	if s := a + b; s >= a {
+		return s
+	}
+	return math.MaxUint32
+}
+
+func (t Track) validate() error {
+	for i, x := range t.ops {
+		if x.TickDelta > maxTickDelta {
+			return errorx.Invalid("delta time of op[%d] exceeds %d ticks", i, maxTickDelta)
+		}
+	}
+	return nil
 }
 
 func (t Track) Apply(tt *smf.Track) {
